@@ -1861,8 +1861,21 @@ double Analyser::AnalyserImpl::powerValue(const AnalyserEquationAstPtr &ast,
 
         return initialValueAsDouble;
     }
-    case AnalyserEquationAst::Type::CN:
-        return std::stod(ast->value());
+    case AnalyserEquationAst::Type::CN: {
+        // Note: the value of a CN node can be out of range (e.g.
+        //       <cn type="e-notation">1<sep/>400</cn>), in which case the value
+        //       of the exponent is not available.
+
+        double value;
+
+        if (!convertToDouble(ast->value(), value)) {
+            powerData.mExponentValueAvailable = false;
+
+            return NAN;
+        }
+
+        return value;
+    }
 
         // Qualifier elements.
 
